@@ -183,6 +183,16 @@ class CSA:
                 subs = [(str(i), p) for i, p in enumerate(pat['elems'])]
             elif k == 'p_struct':
                 subs = [(f['member'], f['pat']) for f in pat['fields']]
+            if val == ('self',) and k == 'p_struct' and name in ('Self', 'Compiler'):
+                # `let Self { constants, gc, .. } = self;`: each name stands for that field of the compiler
+                results = [('yes', st, dict(env))]
+                for member, sp in subs:
+                    nxt = []
+                    for verdict, s3, e3 in results:
+                        for v4, s4, e4 in self.match_pat(sp, ('selffield', member), s3, e3):
+                            nxt.append((verdict if v4 == 'yes' else 'maybe', s4, e4))
+                    results = nxt
+                return results
             if val == ('selffield', 'last_instruction') or val[0] == 'lastreg':
                 self.m.finalize(st)
                 if name == 'None' and enum in (None, 'Option'):
@@ -1026,6 +1036,19 @@ class CSA:
             outs = []
             for s3, e3, k3, v3 in self.apply_closure(a[0], [r[2]], s, en):
                 outs.append((s3, en, 'v', v3 if meth == 'and_then' else (r[0], r[1], v3)))
+            return outs
+        if meth == 'filter' and r[0] == 'opt' and a and a[0][0] == 'closure':
+            # Some(x) stays when the predicate holds for x, otherwise the option is emptied
+            if r[1] == 'none':
+                return V(r)
+            outs = []
+            for s3, e3, k3, v3 in self.apply_closure(a[0], [r[2]], s, en):
+                if v3[0] == 'bool':
+                    outs.append((s3, en, 'v', r if v3[1] else ('opt', 'none')))
+                else:
+                    s4 = s3.clone()
+                    outs.append((s3, en, 'v', r))
+                    outs.append((s4, en, 'v', ('opt', 'none')))
             return outs
         if meth in ('unwrap_or', 'unwrap_or_else', 'unwrap_or_default') and r[0] in ('opt', 'res'):
             if r[1] in ('some', 'ok'):
